@@ -469,6 +469,9 @@ def rule_length_guard_exact(repo, rep, mod):
     f = mod.func("create_driver_payload")
     site = "ethosu/vela/driver_actions.py:create_driver_payload"
     guards = [i for i in ast.walk(f) if isinstance(i, ast.If) and any(isinstance(x, ast.Raise) for x in i.body) and "len(" in str(norm(i.test))]
+    if len(guards) == 0:
+        rep.bad("C17-l", site, "a length guard precedes the header", "no test of the stream length raises: a stream of 2^24 words or more is framed with a truncated 24-bit length")
+        return
     if len(guards) != 1:
         raise AnalysisError(f"create_driver_payload: {len(guards)} length guards")
     pname = f.args.args[0].arg
